@@ -173,7 +173,20 @@ pub static OPS: &[Op] = &[
         (if ok { "ok".into() } else { format!("== is {} for counts {} and {}", r, x, y) }, "ok".into())
     }},
     Op { name: "partial_cmp_unit", sig: &[Ty::Dur, Ty::Unit], pre: always, f: |a| {
-        (format!("{:?}", a[0].dur().partial_cmp(&a[1].unit())), format!("{:?}", Some(a[0].total().cmp(&unit_ns(a[1].unit())))))
+        // the given duration, and the durations at and next to plus / minus one unit
+        let u = a[1].unit();
+        let w = unit_ns(u);
+        let ts = [clamp(a[0].total()), w, -w, w + 1, w - 1, -w + 1, -w - 1, 0];
+        let got: Vec<String> = ts.iter().map(|t| { let d = Duration::from_total_nanoseconds(*t); format!("{:?} {} {} {}", d.partial_cmp(&u), d < u, d >= u, d == u) }).collect();
+        // `==` between a duration and its exact negation within one century of zero is documented (allowed, not required)
+        let want: Vec<String> = ts.iter().map(|t| { let d = Duration::from_total_nanoseconds(*t);
+            let eq = if *t == w { true } else if *t == -w && w <= NPC { d == u } else { false };
+            format!("{:?} {} {} {}", Some(t.cmp(&w)), *t < w, *t >= w, eq) }).collect();
+        (got.join(" | "), want.join(" | "))
+    }},
+    Op { name: "unit_add_sub", sig: &[Ty::Unit, Ty::Unit], pre: always, f: |a| {
+        let (x, y) = (a[0].unit(), a[1].unit());
+        (format!("{} {}", show_d(x + y), show_d(x - y)), format!("{} {}", show_total(unit_ns(x) + unit_ns(y)), show_total(unit_ns(x) - unit_ns(y))))
     }},
     Op { name: "add_monotone", sig: &[Ty::Dur, Ty::Dur], pre: |a| { let s = a[0].total() + a[1].total(); s >= MIN_T && s <= MAX_T }, f: |a| {
         (((a[0].dur() + a[1].dur()) > a[0].dur()).to_string(), (a[1].total() > 0).to_string())
@@ -406,6 +419,47 @@ pub static OPS: &[Op] = &[
         let verdict = if valid && r.is_err() { "valid date-time rejected".to_string() }
             else if reject && r.is_ok() { "invalid date-time accepted".to_string() } else { "ok".to_string() };
         (verdict, "ok".to_string())
+    }},
+    // the wrappers around maybe_from_gregorian: the panicking ones must panic exactly where the fallible one returns an error
+    // (a verified function cannot panic, so "must reject" is outside what their contracts can say: bounded stand-in), and agree
+    // with it everywhere else
+    Op { name: "gregorian_wrappers", sig: &[Ty::I32, Ty::U8, Ty::U8, Ty::U8, Ty::U8, Ty::U8, Ty::U32, Ty::Ts], pre: |a| a[0].int().abs() <= 100_000 && !(a[1].int() == 2 && is_leap(a[0].int()) && (30..=31).contains(&a[2].int())), f: |a| {
+        use std::panic::catch_unwind;
+        let (y, mo, d, h, mi, s, ns) = (a[0].int() as i32, a[1].int() as u8, a[2].int() as u8, a[3].int() as u8, a[4].int() as u8, a[5].int() as u8, a[6].int() as u32);
+        let ts = a[7].ts();
+        let (yi, moi, di, hi, mii, si, nsi) = (a[0].int(), a[1].int(), a[2].int(), a[3].int(), a[4].int(), a[5].int(), a[6].int());
+        let show = |r: Result<Epoch, String>| match r { Ok(e) => format!("{} {:?}", show_d(e.duration), e.time_scale), Err(m) => m };
+        // expected outcome of a call with these fields in scale `sc`: the exact count, "Err" where it must be rejected; None where
+        // the statement leaves it open (hour 24, nanos = 1e9: neither valid nor in the must-reject list)
+        let expect = |hh: i128, mm: i128, ss: i128, nn: i128, sc: TimeScale| -> Option<String> {
+            if strict_valid(yi, moi, di, hh, mm, ss, nn) {
+                let sec = if ss == 60 { 59 } else { ss };
+                Some(format!("{} {:?}", show_total(day_index(yi, moi, di) * DAY_NS + hh * 3_600_000_000_000 + mm * 60_000_000_000 + sec * 1_000_000_000 + nn - greg_zero(sc)), sc))
+            } else if must_reject(yi, moi, di, hh, mm, ss, nn) { Some("Err".to_string()) } else { None }
+        };
+        let p = |f: Box<dyn Fn() -> Epoch + std::panic::UnwindSafe>| -> Result<Epoch, String> { catch_unwind(f).map_err(|_| "Err".to_string()) };
+        let calls: Vec<(&str, Result<Epoch, String>, Option<String>)> = vec![
+            ("from_gregorian", p(Box::new(move || Epoch::from_gregorian(y, mo, d, h, mi, s, ns, ts))), expect(hi, mii, si, nsi, ts)),
+            ("from_gregorian_hms", p(Box::new(move || Epoch::from_gregorian_hms(y, mo, d, h, mi, s, ts))), expect(hi, mii, si, 0, ts)),
+            ("from_gregorian_at_midnight", p(Box::new(move || Epoch::from_gregorian_at_midnight(y, mo, d, ts))), expect(0, 0, 0, 0, ts)),
+            ("from_gregorian_at_noon", p(Box::new(move || Epoch::from_gregorian_at_noon(y, mo, d, ts))), expect(12, 0, 0, 0, ts)),
+            ("from_gregorian_tai", p(Box::new(move || Epoch::from_gregorian_tai(y, mo, d, h, mi, s, ns))), expect(hi, mii, si, nsi, TimeScale::TAI)),
+            ("from_gregorian_tai_hms", p(Box::new(move || Epoch::from_gregorian_tai_hms(y, mo, d, h, mi, s))), expect(hi, mii, si, 0, TimeScale::TAI)),
+            ("from_gregorian_tai_at_midnight", p(Box::new(move || Epoch::from_gregorian_tai_at_midnight(y, mo, d))), expect(0, 0, 0, 0, TimeScale::TAI)),
+            ("from_gregorian_tai_at_noon", p(Box::new(move || Epoch::from_gregorian_tai_at_noon(y, mo, d))), expect(12, 0, 0, 0, TimeScale::TAI)),
+            ("from_gregorian_utc", p(Box::new(move || Epoch::from_gregorian_utc(y, mo, d, h, mi, s, ns))), expect(hi, mii, si, nsi, TimeScale::UTC)),
+            ("from_gregorian_utc_hms", p(Box::new(move || Epoch::from_gregorian_utc_hms(y, mo, d, h, mi, s))), expect(hi, mii, si, 0, TimeScale::UTC)),
+            ("from_gregorian_utc_at_midnight", p(Box::new(move || Epoch::from_gregorian_utc_at_midnight(y, mo, d))), expect(0, 0, 0, 0, TimeScale::UTC)),
+            ("from_gregorian_utc_at_noon", p(Box::new(move || Epoch::from_gregorian_utc_at_noon(y, mo, d))), expect(12, 0, 0, 0, TimeScale::UTC)),
+            ("maybe_from_gregorian_tai", Epoch::maybe_from_gregorian_tai(y, mo, d, h, mi, s, ns).map_err(|_| "Err".to_string()), expect(hi, mii, si, nsi, TimeScale::TAI)),
+            ("maybe_from_gregorian_utc", Epoch::maybe_from_gregorian_utc(y, mo, d, h, mi, s, ns).map_err(|_| "Err".to_string()), expect(hi, mii, si, nsi, TimeScale::UTC)),
+        ];
+        let mut bad = vec![];
+        for (name, got, want) in calls {
+            let g = show(got);
+            if let Some(w) = want { if g != w { bad.push(format!("{} = {}, expected {}", name, g, w)); } }
+        }
+        (if bad.is_empty() { "ok".to_string() } else { bad.join("; ") }, "ok".to_string())
     }},
     Op { name: "gregorian_leap_second", sig: &[Ty::U8, Ty::U8, Ty::Bool, Ty::Ts], pre: always, f: |a| {
         // second = 60 at 23:59 on the LAST day of any month (or, when the flag is false, on the day before it) of
